@@ -52,9 +52,12 @@ def record_all(modname, srcs, jobs=16):
         return []
     if len(srcs) < 32 or jobs == 1:
         return [_record_one((modname, s)) for s in srcs]
+    # ProcessPoolExecutor workers are not daemonic, so recorded calls may fork themselves
+    # (find_circuit(time_limit=...) uses a process pool)
     ctx = multiprocessing.get_context('fork')
-    with ctx.Pool(jobs) as pool:
-        return pool.map(_record_one, [(modname, s) for s in srcs], chunksize=max(1, len(srcs) // (jobs * 8)))
+    args = [(modname, s) for s in srcs]
+    with concurrent.futures.ProcessPoolExecutor(max_workers=jobs, mp_context=ctx) as ex:
+        return list(ex.map(_record_one, args, chunksize=max(1, len(srcs) // (jobs * 8))))
 
 
 def canonical(obj):
@@ -103,6 +106,15 @@ def run_check(modname, tier, seed, replay=None, jobs=16):
     jenv = getattr(mod, 'JUDGE_ENV', None)
     verdicts, jstats = tlc.run_judge(judged, tag=f'{prop}-judge', jobs=jobs, extra_env=jenv)
     byid = {c['id']: c for c in cases}
+    if hasattr(mod, 'post_judge') and not replay:
+        extra, pst = mod.post_judge(cases, tier, seed)
+        verdicts = list(verdicts) + list(extra)
+        design['states'] += pst.get('states', 0)
+        design['transitions'] += pst.get('transitions', 0)
+        design['runs'].append(pst.get('note', ''))
+    elif hasattr(mod, 'post_judge'):
+        extra, pst = mod.post_judge(cases, tier, seed)
+        verdicts = list(verdicts) + list(extra)
     fails = {}
     for cid, step, clauses in verdicts:
         fails.setdefault(cid, []).append((step, clauses))
